@@ -86,7 +86,12 @@ def run_parametrised(rep, rng, n):
                 made.append(("pandas", pd.CategoricalDtype(cats, ordered=rng.random() < 0.5), False))
             elif c < 0.6:
                 p = rng.randint(1, 30)
-                made.append(("pandas", pe.Decimal(p, rng.randint(0, p)), False))
+                sc = rng.choice([0, p, rng.randint(0, p)])        # scale 0, scale = precision, anything between
+                try:
+                    made.append(("pandas", pe.Decimal(p, sc), False))
+                except Exception as e:  # noqa: BLE001
+                    rep.property_failure({"engine": "pandas", "spelling": f"Decimal({p}, {sc})"},
+                                         f"pandas: the legal decimal type Decimal({p}, {sc}) cannot be built: {type(e).__name__}: {e}")
             elif c < 0.8:
                 import pyarrow as pa_
                 t = rng.choice([pa_.int8(), pa_.int64(), pa_.uint16(), pa_.float32(), pa_.float64(), pa_.string(),
@@ -129,6 +134,38 @@ def run_parametrised(rep, rng, n):
                 if back != t:
                     rep.property_failure(case, f"{k}: its printed name {str(t)!r} does not resolve back to an equal type")
                     break
+    # decimal spellings across the engines: every 0 <= scale <= precision resolves
+    for p_, sc_ in ((4, 4), (4, 0), (10, 2), (1, 1), (18, 18)):
+        spellings = {}
+        try:
+            import pyarrow as pa_
+            spellings["pandas: ArrowDtype(decimal128)"] = lambda: pe.Engine.dtype(pd.ArrowDtype(pa_.decimal128(p_, sc_)))
+        except Exception:  # noqa: BLE001
+            pass
+        spellings["pandas: Decimal"] = lambda: pe.Engine.dtype(pe.Decimal(p_, sc_))
+        try:
+            from pyspark.sql import types as T_
+            from pandera.engines import pyspark_engine as pse
+            spellings["pyspark: DecimalType"] = lambda: pse.Engine.dtype(T_.DecimalType(p_, sc_))
+        except Exception:  # noqa: BLE001
+            pass
+        try:
+            import polars as pl_
+            from pandera.engines import polars_engine as ple
+            spellings["polars: Decimal"] = lambda: ple.Engine.dtype(pl_.Decimal(p_, sc_))
+        except Exception:  # noqa: BLE001
+            pass
+        for nm, fn in spellings.items():
+            rep.evaluations += 1
+            rep.count("parametrised:decimal-spelling")
+            with warnings.catch_warnings():
+                warnings.simplefilter("ignore")
+                try:
+                    t = fn()
+                    again = type(t) is not None
+                except Exception as e:  # noqa: BLE001
+                    rep.property_failure({"engine": nm.split(":")[0], "spelling": f"{nm} ({p_}, {sc_})"},
+                                         f"{nm}({p_}, {sc_}) does not resolve: {type(e).__name__}: {str(e)[:80]}")
     for eng, native, primitive in made:
         case = {"engine": eng, "native": repr(native)}
         rep.evaluations += 1
